@@ -122,6 +122,8 @@ pub struct WalWriter {
     /// frame, and any frame appended after it would be unreadable, so further appends are
     /// refused until the WAL is reopened (restart creates a fresh segment).
     poisoned: bool,
+    /// Periodic policy: frames were appended since the last fsync (the interval had not elapsed).
+    unsynced: bool,
 }
 
 impl WalWriter {
@@ -162,6 +164,7 @@ impl WalWriter {
             bytes_written: 4, // Magic header
             error_handler,
             poisoned: false,
+            unsynced: false,
         })
     }
 
@@ -315,6 +318,9 @@ impl WalWriter {
                 {
                     self.file.sync_data()?;
                     self.last_fsync = Instant::now();
+                    self.unsynced = false;
+                } else {
+                    self.unsynced = true;
                 }
             }
             FsyncPolicy::Never => {
@@ -377,6 +383,21 @@ impl WalWriter {
     pub fn sync(&mut self) -> Result<()> {
         self.file.flush()?;
         self.file.sync_all()?;
+        self.unsynced = false;
+        Ok(())
+    }
+
+    /// Periodic policy: fsync frames that were appended since the last fsync.
+    ///
+    /// Appends only fsync when the flush interval has elapsed, so the tail written before an idle
+    /// period (or before a segment rotation) stays volatile until something calls this.
+    pub fn sync_if_unsynced(&mut self) -> Result<()> {
+        if self.unsynced && matches!(self.fsync_policy, FsyncPolicy::Periodic(_)) {
+            self.file.flush()?;
+            self.file.sync_data()?;
+            self.last_fsync = Instant::now();
+            self.unsynced = false;
+        }
         Ok(())
     }
 
